@@ -536,7 +536,10 @@ sc_notify_payload_cleanup (sc_array_t * senders, sc_array_t * recv_buf,
       for (i = 0; i < num_senders; i++) {
         int                *r = (int *) sc_array_index_int (recv_buf, i);
 
-        memcpy (&cpayload[msg_size * i], &r[1], (size_t) msg_size);
+        /* the sender rank precedes the payload only in sorted records */
+        memcpy (&cpayload[msg_size * i],
+                (char *) r + (recv_buf->elem_size - (size_t) msg_size),
+                (size_t) msg_size);
       }
       sc_array_destroy (recv_buf);
     }
